@@ -259,8 +259,7 @@ class Indentation(afmformats.AFMForceDistance):
             self.fit_properties["model_key"] = FP_DEFAULT["model_key"]
 
         # set default initial parameters
-        if ("params_initial" not in self.fit_properties
-                or self.fit_properties["params_initial"] is None):
+        if self.fit_properties.get("params_initial") is None:
             # We need the initial parameters (to modify them).
             # Guesses common parameters like the contact point that
             # would have otherwise been done in `IndentationFitter`:
